@@ -132,6 +132,18 @@ haveSrc:
 	if cfg.DefSide == "1 +" {
 		cfg.DefSide = ""
 	}
+	if r.P(1, 4) {
+		// a host that limits parser work: the budget is set to exactly what the program needs
+		// without any extension; extensions that do not act must not use it up
+		probe := cfg.NewVM()
+		var perr error
+		fw.Guard(func() { perr = probe.Parse(src) })
+		if perr == nil {
+			if n := ds.VerifParserExprCnt(probe); n > 0 {
+				cfg.ParseLimit = n
+			}
+		}
+	}
 	desc := fmt.Sprintf("cfg=%s src=%q", cfg, src)
 	w.Begin(idx, desc)
 	er := fw.NewRand(r.U64())
@@ -405,9 +417,83 @@ func c17ReadExpr(w *fw.W, idx int, r *fw.Rand) {
 	w.Note(fw.Hash64(desc))
 }
 
+// c17LazyInside: values whose code is compiled at first use (decoded from JSON, made by the host,
+// served by the global loader) and whose first use happens inside the body of a function that is
+// already compiled: the registered syntax acts there exactly as at top level.
+func c17LazyInside(w *fw.W, idx int, r *fw.Rand) {
+	k1, k2, k3 := 1+r.Intn(40), 1+r.Intn(40), 1+r.Intn(40)
+	cfg := AllDice()
+	cfg.Seed = r.U64() | 1
+	cfg.OpLimit = 30000
+	vm := cfg.NewVM()
+	var log []string
+	_ = vm.RegCustomDice(`E(\d+)`, func(ctx *ds.Context, groups []string, _ any) (*ds.VMValue, string, error) {
+		log = append(log, groups[0])
+		k, _ := strconv.Atoi(groups[1])
+		return ds.NewIntVal(ds.IntType(k)), "", nil
+	})
+	if fv, err := ds.VMValueFromJSON([]byte(fmt.Sprintf(`{"t":8,"v":{"expr":"E%d * v","name":"hf","params":["v"]}}`, k1))); err == nil {
+		vm.Attrs.Store("hf", fv)
+	}
+	vm.Attrs.Store("hz", ds.NewComputedVal(fmt.Sprintf("E%d + 1", k2)))
+	glob := ds.NewComputedVal(fmt.Sprintf("E%d", k3))
+	vm.GlobalValueLoadFunc = func(name string) *ds.VMValue {
+		if name == "gz" {
+			return glob
+		}
+		return nil
+	}
+	shape := r.Intn(4)
+	src := []string{
+		"func w1() { hf(2) + hz + gz }; w1()",
+		"func w2() { func w3() { hz + gz }; w3() + hf(2) }; w2()",
+		"&cw = hf(2) + hz + gz; func w4() { cw }; w4()",
+		"func w5(v) { v + hz }; w5(hf(2)) + `{gz}`*1 + gz*0",
+	}[shape]
+	want := int64(k1*2 + k2 + 1 + k3)
+	desc := fmt.Sprintf("lazy-inside shape=%d src=%q (hf=E%d*v from JSON, hz=E%d+1 host computed, gz=E%d via global loader)", shape, src, k1, k2, k3)
+	w.Begin(idx, desc)
+	var err error
+	pv, st := fw.Guard(func() { err = vm.Run(src) })
+	w.Eval(1)
+	w.Count("lazy_inside_programs", 1)
+	if pv != nil {
+		w.Violate(idx, "panic", fw.PanicKey(pv, st), desc, fmt.Sprint(pv), nil)
+		return
+	}
+	if shape == 3 {
+		// `{gz}`*1 is a string repetition error or concatenation depending on types: only the log matters
+		want = -1
+	}
+	if err != nil && shape != 3 {
+		w.Violate(idx, "extension", "ext|lazy-inside|rejected", desc, firstLine(err.Error()), nil)
+		return
+	}
+	if want >= 0 {
+		if got, ok := vm.Ret.ReadInt(); !ok || int64(got) != want {
+			w.Violate(idx, "extension", "ext|lazy-inside|value", desc, fmt.Sprintf("result %s, want %d (handler log %v)", vm.Ret.ToString(), want, log), nil)
+		}
+	}
+	seen := map[string]int{}
+	for _, l := range log {
+		seen[l]++
+	}
+	for _, e := range []string{fmt.Sprintf("E%d", k1), fmt.Sprintf("E%d", k2), fmt.Sprintf("E%d", k3)} {
+		if seen[e] == 0 {
+			w.Violate(idx, "extension", "ext|lazy-inside|handler-not-run", desc, fmt.Sprintf("the handler never ran for %s (log %v): the syntax was not recognised in code compiled at first use inside a compiled body", e, log), nil)
+			return
+		}
+	}
+	w.Note(fw.Hash64(desc))
+}
+
 func c17Match(w *fw.W, idx int, r *fw.Rand) {
 	if r.P(1, 20) {
 		c17Overlap(w, idx, r)
+		return
+	}
+	if r.P(1, 20) {
+		c17LazyInside(w, idx, r)
 		return
 	}
 	if r.P(1, 20) {
